@@ -53,6 +53,7 @@ type Prog struct {
 	Assumptions map[string]bool
 	needFloatAxioms bool
 	Lemmas map[string][]*LemmaDecl
+	Trusted map[string]bool // trusted/extern contracts actually used
 }
 
 type LoadConfig struct {
@@ -108,7 +109,7 @@ func Load(cfg LoadConfig) (*Prog, error) {
 		byFn: map[*ssa.Function]*Contract{}, extern: map[string]*Contract{}, specFns: map[string]*specFn{},
 		ssaPkg: map[string]*ssa.Package{}, errGlobals: map[string]bool{}, Files: map[string]*spec.File{},
 		TypeInvs: map[string]*spec.TypeInv{}, Monitors: map[string]*spec.Monitor{}, PkgOf: map[string]*packages.Package{},
-		Assumptions: map[string]bool{}, Lemmas: map[string][]*LemmaDecl{}}
+		Assumptions: map[string]bool{}, Lemmas: map[string][]*LemmaDecl{}, Trusted: map[string]bool{}}
 	for _, sp := range prog.AllPackages() {
 		p.ssaPkg[sp.Pkg.Path()] = sp
 	}
@@ -356,6 +357,33 @@ func (p *Prog) globalValue(env *Env, heap map[string]*smt.Term, v *types.Var) SV
 		p.errGlobals[name] = true
 	}
 	return SV{T: v.Type(), Term: smt.Const(name, s)}
+}
+
+// boxFuncs declares the injective boxing of values of sort s into interface payloads.
+func (p *Prog) boxFuncs(s *smt.Sort) (box, unbox string) {
+	box = "box$" + sanitize(s.Name)
+	unbox = "unbox$" + sanitize(s.Name)
+	p.D.AddFunc(box, smt.Int, s)
+	if p.D.Func(unbox) == nil {
+		p.D.AddFunc(unbox, s, smt.Int)
+		bv := smt.BVar("bx", s)
+		p.D.AddAxiom("box-injective "+s.Name, smt.Forall([]*smt.Term{bv},
+			smt.Eq(smt.App(unbox, s, smt.App(box, smt.Int, bv)), bv), smt.App(box, smt.Int, bv)))
+	}
+	return box, unbox
+}
+
+// unbox extracts the payload of type t from an interface value (meaningful when its dynamic type is t).
+func (p *Prog) unbox(iface *smt.Term, t types.Type) Val {
+	s := p.T.SortOf(t)
+	if s == smt.Int {
+		if pt, ok := t.Underlying().(*types.Pointer); ok {
+			return &Loc{Kind: LRoot, Ref: IfVal(iface), Root: pt.Elem()}
+		}
+		return IfVal(iface)
+	}
+	_, un := p.boxFuncs(s)
+	return smt.App(un, s, IfVal(iface))
 }
 
 func (p *Prog) mapLen(env *Env, heap map[string]*smt.Term, v SV) *smt.Term {
